@@ -15,9 +15,12 @@ package main
 import (
 	"encoding/json"
 	"fmt"
+	goast "go/ast"
+	goparser "go/parser"
+	"go/token"
+	"runtime"
 	"math"
 	"math/rand"
-	"os"
 	"reflect"
 	"regexp"
 	"sort"
@@ -803,12 +806,90 @@ func c02Sigs(env *C02Env) string {
 	return "[" + strings.Join(items, ";\n  ") + "]"
 }
 
+// c02Pipeline reads the pass order and the iteration bounds out of the optimizer.go the harness was
+// compiled from (located through the debug information of optimizer.Optimize): for every statement of
+// Optimize, in source order, the visitor type walked and, for a `for limit := N; limit >= 0; limit--`
+// loop around it, N+1 (0 when the loop has another shape).
+func c02Pipeline() (passes []string, bounds []int) {
+	fn := runtime.FuncForPC(reflect.ValueOf(optimizer.Optimize).Pointer())
+	if fn == nil {
+		return nil, nil
+	}
+	file, _ := fn.FileLine(fn.Entry())
+	fset := token.NewFileSet()
+	f, err := goparser.ParseFile(fset, file, nil, 0)
+	if err != nil {
+		return nil, nil
+	}
+	var body *goast.BlockStmt
+	for _, d := range f.Decls {
+		if fd, ok := d.(*goast.FuncDecl); ok && fd.Name.Name == "Optimize" {
+			body = fd.Body
+		}
+	}
+	if body == nil {
+		return nil, nil
+	}
+	var walkIn func(n goast.Node, bound int)
+	walkIn = func(n goast.Node, bound int) {
+		goast.Inspect(n, func(x goast.Node) bool {
+			switch y := x.(type) {
+			case *goast.ForStmt:
+				b := 0
+				if as, ok := y.Init.(*goast.AssignStmt); ok && len(as.Rhs) == 1 {
+					if lit, ok := as.Rhs[0].(*goast.BasicLit); ok {
+						if be, ok := y.Cond.(*goast.BinaryExpr); ok && be.Op == token.GEQ {
+							if zero, ok := be.Y.(*goast.BasicLit); ok && zero.Value == "0" {
+								if _, ok := y.Post.(*goast.IncDecStmt); ok {
+									fmt.Sscan(lit.Value, &b)
+									b++
+								}
+							}
+						}
+					}
+				}
+				walkIn(y.Body, b)
+				return false
+			case *goast.CallExpr:
+				if id, ok := y.Fun.(*goast.Ident); ok && id.Name == "Walk" && len(y.Args) == 2 {
+					name := "?"
+					switch a := y.Args[1].(type) {
+					case *goast.Ident: // a variable assigned `&T{...}` in the loop body
+						name = a.Name
+					case *goast.UnaryExpr:
+						if cl, ok := a.X.(*goast.CompositeLit); ok {
+							if t, ok := cl.Type.(*goast.Ident); ok {
+								name = t.Name
+							}
+						}
+					}
+					passes = append(passes, name)
+					bounds = append(bounds, bound)
+				}
+			}
+			return true
+		})
+	}
+	walkIn(body, 1)
+	return
+}
+
 func c02Header(env *C02Env) string {
 	var b strings.Builder
 	b.WriteString("From Coq Require Import ZArith List String Floats.\n")
 	b.WriteString("Require Import X.Base.Num X.Base.Value X.Syn.Ast X.Sem.Prim X.Corr.Universe X.Opt.Optimizer X.Corr.CorrC02.\n")
 	b.WriteString("Import ListNotations.\nOpen Scope string_scope.\nOpen Scope Z_scope.\n\n")
 	b.WriteString("Definition sigs : list (string * fsig) :=\n  " + c02Sigs(env) + ".\n")
+	passes, bounds := c02Pipeline()
+	ps := make([]string, len(passes))
+	for i, p := range passes {
+		ps[i] = cqStr(p)
+	}
+	bs := make([]string, len(bounds))
+	for i, x := range bounds {
+		bs[i] = fmt.Sprint(x)
+	}
+	fmt.Fprintf(&b, "Definition go_passes : list string := [%s].\nDefinition go_bounds : list Z := [%s].\n", strings.Join(ps, "; "), strings.Join(bs, "; "))
 	return b.String()
 }
 
@@ -943,8 +1024,11 @@ func runC02() {
 		if fr.err == nil {
 			feat = c02Features(fr.tree.Node, m.Consts)
 		}
+		sampled := *tier == "thorough" || !(j.s.Fam == "in-array" || j.s.Fam == "in-range" || j.s.Fam == "array-fold" || j.s.Fam == "const-arith retyped" || j.s.Fam == "general") || rng.Intn(100) < 40
 		if fr.err == nil && (j.s.Fam == "const-range budget" || (j.s.Fam == "const-range window" && !m.Typed && *tier != "thorough")) {
 			rep.hist("correspondence skipped (several 10^6-element constants)")
+		} else if fr.err == nil && !sampled {
+			rep.hist("correspondence not sampled in the quick tier (oracle only)")
 		} else if fr.err == nil {
 			before := cqExpr(fr.tree.Node)
 			callLog = nil
@@ -1055,9 +1139,6 @@ func runC02() {
 				continue
 			}
 			key := c02Classify(feat, r0, r1, skip)
-			if os.Getenv("C02_DUMP") != "" {
-				fmt.Printf("DUMP %s | %s | %s | env%d | %s | %s\n", key, src, m.Name, ei, c02Show(r0), c02Show(r1))
-			}
 			rep.fail(Failure{Key: key, What: "optimized and unoptimized programs disagree", Input: input(ei),
 				Want: "unoptimized: " + c02Show(r0), Got: "optimized: " + c02Show(r1), Replay: replayArg(ei)})
 		}
@@ -1068,7 +1149,7 @@ func runC02() {
 		j := jobs[(i*7919+13)%len(jobs)]
 		rep.Samples = append(rep.Samples, map[string]string{"src": j.s.Src, "mode": j.m.Name, "family": j.s.Fam})
 	}
-	rep.writeShards("cases_c02", c02Header(sample), "c02case", "c02_mismatches sigs", cases)
+	rep.writeShards("cases_c02", c02Header(sample), "c02case", "c02_mismatches_p go_passes go_bounds sigs", cases)
 	rep.write()
 }
 
